@@ -344,6 +344,9 @@ def replay_kin(pid, v):
 @register("C14")
 def c14(ctx):
     run_kin(ctx)
+    # without dimension checking nothing is rejected, and commands of different kinds still must not be added
+    import p_config
+    run_kin(ctx, dimcheck=False, features=p_config.CONFIGS["std_nocheck"][0], tag="std_nocheck")
     ctx.rule = ("update: all 64 state triples over {-2,0,1,3} x dt in {-4,-1,0,1,2} ticks; setter: 5 states x 3 setters x 49 units (and raw "
                 "forms) x 2 values; cmd: command-from-state for all 64 triples, accessors / conversions / round trips for 3 kinds x 4 values, "
                 "State::new with one wrongly dimensioned argument over the 49 units; arith: state and command operators with their assign "
